@@ -295,6 +295,16 @@ _ADDED3 = {
            "count being the required length rounded up) and the ramps change by at most dgdt dt per sample (Z8: R = ceil(gmax/(dgdt dt)) ramp samples, plateau joined at "
            "the same value); both by the lemmas ceil(x) >= x and int(n) = n for integer-valued n.",
 }
+_ADDED4 = {
+    "C03": " Diag takes both of its shapes from the stacking helpers with the axes the caller gave and stores those axes unchanged (a valid axis 0 never becomes None); "
+           "Linop.apply returns exactly what _apply returned, and Linop.__init__ stores fresh copies of the shape lists.",
+    "C11": " Prox constructors store the parameters they keep under their own name unchanged (P5), and no _prox / thresholding function writes to its arguments or to "
+           "the stored parameters (P6).",
+    "C18": " The bisection over the slope terminates for unsatisfiable requests: the loop leaves when the midpoint equals an end of the bracket (B2t), so the failure "
+           "is reported by the ValueError after the loop (defect 14, repaired).",
+}
+for _k, _v in _ADDED4.items():
+    _ADDED3[_k] = _ADDED3.get(_k, "") + _v
 for _k, _v in _ADDED3.items():
     _ADDED2[_k] = _ADDED2.get(_k, "") + _v
 for _k, _v in _ADDED2.items():
@@ -307,7 +317,11 @@ for _k in CLAIMS:
     CLAIMS[_k]["text"] = CLAIMS[_k]["text"] + " Also decided for the code this property's anchor files reach through the resolved call graph: the shared helpers of " \
         "sigpy/util.py and sigpy/backend.py equal their documented forms (SH: vec, split, prod, rss, _expand_shapes, _normalize_axes, axpy, xpay, dirac, randn, copyto, " \
         "get_device, get_array_module), the Linop / Prox / Alg / App base classes keep their contracts (G1, G3, N1, P1, T1, T4), numba decorators carry no " \
-        "meaning-changing option (SJ), no mutable default argument or class-level container is written (SD), and no closure created in a loop reads the loop variable (SL)."
+        "meaning-changing option (SJ), no mutable default argument or class-level container is written (SD), no closure created in a loop reads the loop variable (SL), " \
+        "in-place writes never target a ravel()/reshape() temporary (SW), public names are re-exported unshadowed (SR), default argument values are the documented ones (SG); " \
+        "and where that code reaches the core functions another property certifies (centred FFT, index maps, interpolation kernels, nufft, convolution, wavelet, proximal " \
+        "operators, solver updates, operator classes and their algebra, normal operators, LinearLeastSquares routing) that property's rules are evaluated as part of this " \
+        "check (evidence: extra.inherited_checks)."
 for _k in CLAIMS:
     CLAIMS[_k]["note"] = CLAIMS[_k]["note"] + " Local variable names are never relied on: values are identified by role (what is returned, passed on, or stored) or after aligning the " \
         "function with the rule's reference text; the whole-tree rewrites of tools/benign_global.py (re-emission, renaming of every local, branch and comparison flipping, hoisted returns) leave every check silent; a private helper (or its parameters) renamed by an edit is recognised by its parameter list, callees and body digest and read under its old name."
